@@ -15,7 +15,7 @@ VEC_FIELDS = {
 }
 SPATIAL = ['Vec2', 'Vec3', 'Vec4', 'Extent2', 'Extent3', 'Vec8', 'Vec16', 'Vec32', 'Vec64']
 
-QUICK_FEATURES = ['std', 'rgb', 'rgba', 'uv', 'uvw', 'vec8']
+QUICK_FEATURES = ['std', 'rgb', 'rgba', 'uv', 'uvw', 'vec8', 'vec16', 'vec32', 'vec64']
 ALL_FEATURES = ['std', 'rgb', 'rgba', 'uv', 'uvw', 'vec8', 'vec16', 'vec32', 'vec64']
 
 
